@@ -15,13 +15,17 @@ CFG = {'harness': 'det',
              'rustc/LLVM/std slice and integer semantics as encoded in Base/Res.v, Base/Bytes.v (slice/idx/arr panic '
              "exactly when Rust's do); u128::leading_zeros = 128 - bit length",
              'tools/gen.py translator (PADWING_BOARDS regenerated into coq/Gen/Boards.v each run)'],
- 'level_text': 'Coq theorems over a line-by-line model of PwbV2Packet::try_from and waveform_at (panic-aware, both '
-               'overflow modes, any MAC table): accepted iff the field rules hold and the bytes are the documented '
-               'little-endian layout (one block per sent channel in ascending readout order, zero padding iff odd, '
-               'end marker, nothing left over); the mask loop returns exactly the set bits in ascending order; the 79 '
-               'readout indices are in bijection with 3 reset + 4 FPN + 72 pad channels; waveform_at returns exactly '
-               'the samples of the channel\'s block (None for channels not sent); never a panic; checked and '
-               'wrapping builds agree. All byte lists, no bound.',
+ 'level_text': 'Coq theorems over a line-by-line model of PwbV2Packet::try_from, ChannelId::try_from(u16) and '
+               'waveform_at (panic-aware, both overflow modes, any MAC table): C05_pwb_exact accepted iff the field '
+               'rules hold and the bytes are the documented little-endian layout (one block per sent channel in '
+               'ascending readout order, zero padding iff odd, end marker, nothing left over), so re-encoding '
+               'reproduces the input; C05_pwb_accept_iff_wf the same as a bullet list over the input bytes; '
+               'C05_mask_loop_set_bits / C05_mask_bits_ascending / C05_channel_lists the leading_zeros loop (fuel '
+               '128) yields exactly the set bits ascending, bit i = readout index i+1; C05_readout_bijection 79 '
+               'indices <-> 3 reset + 4 FPN + 72 pads; C05_waveform_at_block / C05_waveform_bytes / '
+               'C05_waveform_absent waveform_at returns exactly the requested_samples samples of the channel\'s '
+               'block of the input (None for channels not sent); C05_pwb_total never a panic; C05_pwb_no_wrap '
+               'checked and wrapping builds agree. All byte lists, no bound.',
  'level_note': 'trusted: Coq kernel; hand model tied by differential run (all accessors, both channel lists and '
                'waveform_at of all 79 channels compared, every sample); board table regenerated from source each run; '
                'extraction; harness',
